@@ -6,6 +6,7 @@
    method holds pps.l for its whole duration, every interleaving of concurrent callers is such a sequence. *)
 From Coq Require Import ZArith NArith List Sorted.
 From MV Require Import C11.Model C11.Proofs.
+From MV Require Gen.C11.
 Import ListNotations.
 Open Scope Z_scope.
 
@@ -50,6 +51,10 @@ Qed.
 Theorem C11_no_save_after_cancel : forall ops l1 q l2 e,
   trace init ops = l1 ++ EvCancel q :: l2 -> In (EvSave e) l2 -> s_stub e = false -> s_pid e <> q.
 Proof. exact trace_no_save_after_cancel. Qed.
+
+(* the initial previousSaved of the model is the code's base.NilHeight, below every valid height *)
+Theorem C11_initial_previous_saved_is_code : prev_saved init = Gen.C11.nil_height /\ Gen.C11.nil_height = -1.
+Proof. split; reflexivity. Qed.
 
 (* ---- non-vacuity: histories in which blocks are written, refused and cancelled *)
 
